@@ -137,6 +137,10 @@ def check_case(ctx, case):
             with h5py.File(d / 'refmarkers.h5', 'a') as dst:
                 ref_marker_genes = json.loads(
                     dst['gene_names'][()].decode('utf-8'))
+                p2i = json.loads(dst['pair_to_idx'][()].decode('utf-8'))
+                sbp = {k: dst['sparse_by_pair'][k][()] for k in
+                       ('up_pair_idx', 'up_gene_idx', 'down_pair_idx',
+                        'down_gene_idx')}
                 if 'metadata' not in dst:
                     dst.create_dataset('metadata', data=json.dumps(
                         {'precomputed_path': str(d / 'stats.h5')}
@@ -180,6 +184,44 @@ def check_case(ctx, case):
                     g not in qset or g not in genes for g in v):
                 violation('names/marker-table', 'marker table key %r / '
                           'genes not in taxonomy / files' % (k,))
+                return
+        # every selected marker of a parent is, in the reference-marker
+        # file, a marker (up or down) of some pair of leaves below that
+        # parent that sit in different children
+        leaf_level = h[-1]
+
+        def pair_genes(a, b):
+            dd = p2i[leaf_level]
+            idx = dd[a][b] if (a in dd and b in dd[a]) else dd[b][a]
+            up = sbp['up_gene_idx'][sbp['up_pair_idx'][idx]:
+                                    sbp['up_pair_idx'][idx + 1]]
+            dn = sbp['down_gene_idx'][sbp['down_pair_idx'][idx]:
+                                      sbp['down_pair_idx'][idx + 1]]
+            return set(ref_marker_genes[g] for g in up) | \
+                set(ref_marker_genes[g] for g in dn)
+
+        for k, v in lookup.items():
+            if k in ('log', 'metadata') or not v:
+                continue
+            pl, pn = (None, None) if k == 'None' else k.split('/', 1)
+            lv = tv.leaves_under(pl, pn)
+            cl, _ = tv.children(h, pl, pn)
+            okg = set()
+            try:
+                for a in lv:
+                    for b in lv:
+                        if a < b and tv.anc[a][cl] != tv.anc[b][cl]:
+                            okg |= pair_genes(a, b)
+            except (KeyError, IndexError) as e:
+                violation('names/pair-index', 'pair_to_idx of the reference '
+                          'marker file does not address the leaf pairs: %r'
+                          % (e,))
+                return
+            if not set(v) <= okg:
+                violation('names/marker-not-a-reference-marker',
+                          'marker table entry %r lists %r, which the '
+                          'reference-marker file does not give for any leaf '
+                          'pair below it' % (k, sorted(set(v) - okg)))
                 return
         # independent means from the raw counts
         Xr = np.array(case['X'], dtype=float)
@@ -307,7 +349,7 @@ def run(ctx):
     n = 14 if ctx.tier == 'quick' else 200
     for i in range(n):
         check_case(ctx, gen_case(rng, i))
-    if not ctx.extra_cov.get('guard_true_cases'):
+    if not ctx.extra_cov.get('guard_true_cases') and not ctx.violations:
         ctx.violation(SIG + '/vacuous', 'no (centroid, node) with the guard '
                       'true was generated: the check is vacuous', {},
                       found_input=False)
